@@ -1364,13 +1364,19 @@ mod expression_parser {
                 body: Box::new(body),
               });
             } else {
-              return expr::E::LocalId(
+              let id_expr = expr::E::LocalId(
                 expr::ExpressionCommon {
                   loc: start_id.loc,
                   associated_comments: start_id.associated_comments,
                   type_: (),
                 },
                 start_id,
+              );
+              return super::utils::keep_parenthesis_comments(
+                parser,
+                id_expr,
+                associated_comments,
+                ending_comments,
               );
             }
           }
@@ -1394,8 +1400,14 @@ mod expression_parser {
                 expressions,
               );
             } else {
-              let _ = parser.assert_and_consume_operator(TokenOp::RightParenthesis);
-              return first_expr;
+              let (_, ending_comments) =
+                parser.assert_and_consume_operator(TokenOp::RightParenthesis);
+              return super::utils::keep_parenthesis_comments(
+                parser,
+                first_expr,
+                associated_comments,
+                ending_comments,
+              );
             }
           }
         }
@@ -1406,7 +1418,12 @@ mod expression_parser {
         MAX_STRUCT_SIZE,
       );
       if expressions_list.expressions.len() == 1 {
-        return expressions_list.expressions.pop().unwrap();
+        let start_comments =
+          parser.comments_store.get(expressions_list.start_associated_comments).iter().copied().collect();
+        let ending_comments =
+          parser.comments_store.get(expressions_list.ending_associated_comments).iter().copied().collect();
+        let inner = expressions_list.expressions.pop().unwrap();
+        return super::utils::keep_parenthesis_comments(parser, inner, start_comments, ending_comments);
       }
       return expr::E::Tuple(
         expr::ExpressionCommon {
@@ -2175,6 +2192,30 @@ mod utils {
         associated_comments
       }
     }
+  }
+
+  /// A parenthesised expression is unwrapped by the parser. The comments written after `(` and
+  /// before `)` stay with the inner expression: `( /* a */ e /* b */ )` keeps `a`, the comments of
+  /// `e` and `b`, in this order, in front of `e`.
+  pub(super) fn keep_parenthesis_comments(
+    parser: &mut super::SourceParser,
+    mut expression: samlang_ast::source::expr::E<()>,
+    mut start_comments: Vec<Comment>,
+    mut end_comments: Vec<Comment>,
+  ) -> samlang_ast::source::expr::E<()> {
+    if start_comments.is_empty() && end_comments.is_empty() {
+      return expression;
+    }
+    let common = expression.common_mut();
+    start_comments.extend(parser.comments_store.get(common.associated_comments).iter().copied());
+    start_comments.append(&mut end_comments);
+    match parser.comments_store.get_mut(common.associated_comments) {
+      CommentsNode::NoComment => {
+        common.associated_comments = parser.comments_store.create_comment_reference(start_comments);
+      }
+      CommentsNode::Comments(existing_comments) => *existing_comments = start_comments,
+    }
+    expression
   }
 
   pub(super) fn resolve_class(
